@@ -5,6 +5,7 @@ S->C: Geometry.tla enumerates every (shape, anisotropic scales, origin) geometry
       Mask2D.geometry / Grid2D / Grid1D / Mask1D / Mask2D.circular... API with concrete tick lengths (gamma).
 C->S: what comes back is abstracted to integer half-ticks (alpha rejects off-lattice values) and validated by
       Trace_Geometry.tla; seeded random larger frames (up to 40x31) with random tick lengths extend the reach."""
+import json
 import math
 import os
 
@@ -88,7 +89,10 @@ def mc_defs(*, shapes=(), scales=(), origins=(), sizes1d=(), mask_shapes=(), mas
 
 
 # ---------------------------------------------------------------------------------------------
-# alpha: floats -> integer half-ticks (rejecting)
+# alpha: floats -> integer half-ticks (rejecting).  Whatever the code under test hands back is turned into a
+# VERDICT: a value that is not on the lattice, has the wrong shape or is not numeric at all becomes the sentinel
+# OFFV and is counted in `off` (clause "offlattice"); an exception raised by a call is recorded in `raised`
+# (clause "no-exception").  Nothing the implementation returns or raises may end in a machinery failure.
 # ---------------------------------------------------------------------------------------------
 class _Alpha:
     def __init__(self, tau):
@@ -96,33 +100,68 @@ class _Alpha:
         self.off = 0
         self.where = []
 
-    def _conv(self, a, name):
-        a = np.asarray(a, dtype=float)
-        r = np.rint(a)
-        ok = np.isfinite(a) & (np.abs(a - r) <= TOL) & (np.abs(r) < 1.0e9)
-        bad = int(np.size(ok) - np.count_nonzero(ok))
-        if bad:
-            self.off += bad
-            if name not in self.where:
-                self.where.append(name)
-        return np.where(ok, r, OFFV).astype(np.int64).tolist()
+    def _bad(self, name, n=1):
+        self.off += n
+        if name not in self.where:
+            self.where.append(name)
 
-    def ticks(self, x, name):
-        """scaled coordinates -> half-ticks"""
-        return self._conv(np.asarray(x, dtype=float) / self.tau, name)
+    def _conv(self, x, name, ncomp, div=None, mul=None):
+        try:
+            a = np.asarray(x, dtype=float)
+            a = a / div if div is not None else a * mul
+            a = a.reshape(-1, ncomp) if ncomp > 1 else a.reshape(-1)
+            r = np.rint(a)
+            ok = np.isfinite(a) & (np.abs(a - r) <= TOL) & (np.abs(r) < 1.0e9)
+            bad = int(np.size(ok) - np.count_nonzero(ok))
+            if bad:
+                self._bad(name, bad)
+            return np.where(ok, r, OFFV).astype(np.int64).tolist()
+        except Exception:
+            self._bad(name)
+            return [[OFFV] * ncomp] if ncomp > 1 else [OFFV]
 
-    def ints(self, x, name, scale=1.0):
+    def ticks(self, x, name, ncomp):
+        """scaled coordinates -> half-ticks; ncomp = 2 for (y,x) pairs, 1 for a flat list"""
+        return self._conv(x, name, ncomp, div=self.tau)
+
+    def ints(self, x, name, ncomp, scale=1.0):
         """values that must be integers (pixel indices; continuous pixel coordinates times `scale`)"""
-        return self._conv(np.asarray(x, dtype=float) * scale, name)
+        return self._conv(x, name, ncomp, mul=scale)
 
 
 def _geo_tuple(g):
     return g["h"], g["w"], g["sy"], g["sx"], g["oy"], g["ox"]
 
 
-def _slim(arr, ncomp):
-    a = np.asarray(arr, dtype=float)
-    return a.reshape(-1, ncomp) if ncomp > 1 else a.reshape(-1)
+def _msg(e):
+    return f"{type(e).__name__}: {str(e)[:100]}".encode("ascii", "replace").decode()
+
+
+class _Rec:
+    """One record.  Every group of calls into the code under test (and the abstraction of what it returns) runs
+    through `do`: if anything in the group raises, the group's fields get their defaults and the record says so."""
+
+    def __init__(self, base, tau):
+        self.rec = dict(base)
+        self.rec["raised"] = []
+        self.al = _Alpha(tau)
+
+    def do(self, name, fn, defaults):
+        try:
+            out = fn()
+        except core.MachineryError:
+            raise
+        except Exception as e:  # noqa: BLE001 -- a verdict, see above
+            self.rec["raised"].append(f"{name}: {_msg(e)}")
+            self.rec.update(defaults)
+            return False
+        self.rec.update(out)
+        return True
+
+    def done(self):
+        self.rec["off"] = int(self.al.off)
+        self.rec["offw"] = self.al.where
+        return self.rec
 
 
 # ---------------------------------------------------------------------------------------------
@@ -134,71 +173,97 @@ def rec_g2(g, qs, tau, seed, jitter, cells=None):
 
     h, w, sy, sx, oy, ox = _geo_tuple(g)
     rng = np.random.default_rng([seed, h, w, sy, sx, oy + 1000, ox + 1000])
-    al = _Alpha(tau)
     ps = (sy * tau, sx * tau)
     org = (oy * tau, ox * tau)
-    full = aa.Mask2D.all_false(shape_native=(h, w), pixel_scales=ps, origin=org)
-    geo = full.geometry
-    rec = {"p": "C02", "api": "g2", "g": dict(g), "tau": repr(float(tau)), "seed": int(seed), "jitter": bool(jitter)}
-    rec["extent"] = al.ticks(list(geo.extent), "extent")
-
+    R = _Rec({"p": "C02", "api": "g2", "g": dict(g), "tau": repr(float(tau)), "seed": int(seed), "jitter": bool(jitter)}, tau)
+    al = R.al
+    # inputs (all chosen here, none derived from what the implementation returns)
     q = np.asarray(qs, dtype=float).reshape(-1, 2)
     n = q.shape[0]
     qexact = q * tau
     qj = qexact + (rng.uniform(-0.49, 0.49, size=q.shape) * tau if jitter else 0.0)
-    rec["qs"] = [[int(a), int(b)] for a, b in q]
-    rec["px"] = al.ints([list(geo.pixel_coordinates_2d_from(scaled_coordinates_2d=(float(y), float(x)))) for y, x in qj], "px") if n else []
-    if n:
-        gq = aa.Grid2D.no_mask(values=qj.copy(), shape_native=(1, n), pixel_scales=1.0)
-        rec["cen"] = al.ints(_slim(geo.grid_pixel_centres_2d_from(grid_scaled_2d=gq), 2), "cen")
-        rec["idx"] = al.ints(_slim(geo.grid_pixel_indexes_2d_from(grid_scaled_2d=gq), 1), "idx")
-        ge = aa.Grid2D.no_mask(values=qexact.copy(), shape_native=(1, n), pixel_scales=1.0)
-        pix = geo.grid_pixels_2d_from(grid_scaled_2d=ge)
-        rec["cont_back"] = al.ticks(_slim(geo.grid_scaled_2d_from(grid_pixels_2d=pix), 2), "cont_back")
-    else:
-        rec["cen"], rec["idx"], rec["cont_back"] = [], [], []
-
-    # pixel centres and back
     if cells is None:
         cells = [[a, b] for a in range(h) for b in range(w)]
-    rec["cells"] = [[int(a), int(b)] for a, b in cells]
-    ctr_f = [geo.scaled_coordinates_2d_from(pixel_coordinates_2d=(int(a), int(b))) for a, b in cells]
-    rec["ctr"] = al.ticks([list(c) for c in ctr_f], "ctr")
-    cidx = [geo.pixel_coordinates_2d_from(scaled_coordinates_2d=c) for c in ctr_f]
-    rec["cidx"] = al.ints([list(c) for c in cidx], "cidx")
-    rec["cback"] = al.ticks([list(geo.scaled_coordinates_2d_from(pixel_coordinates_2d=c)) for c in cidx], "cback")
-    # the same conversion with the pixel index given as a Python list and as a numpy integer array
-    rec["ctr_list"] = al.ticks([list(geo.scaled_coordinates_2d_from(pixel_coordinates_2d=[int(a), int(b)])) for a, b in cells], "ctr_list")
-    rec["ctr_npint"] = al.ticks([list(geo.scaled_coordinates_2d_from(pixel_coordinates_2d=np.array([a, b], dtype=np.int64))) for a, b in cells], "ctr_npint")
-
-    # INTEGER pixel coordinates fed back through the continuous conversion: the centres of `cells` go through
-    # grid_pixel_centres_2d_from; what it returns (integer dtype, as returned) goes through grid_scaled_2d_from and
-    # back through grid_pixels_2d_from.  The same whole numbers as floats and as a freshly built integer grid must
-    # give the same scaled coordinates (a conversion of pixel coordinates cannot depend on their dtype).
+    cells = [[int(a), int(b)] for a, b in cells]
     nc = len(cells)
-    gc = aa.Grid2D.no_mask(values=np.asarray([list(c) for c in ctr_f], dtype=float), shape_native=(1, nc), pixel_scales=1.0)
-    ip = geo.grid_pixel_centres_2d_from(grid_scaled_2d=gc)
-    ipa = np.array(ip)
-    rec["ip"] = al.ints(_slim(ipa, 2), "ip")
-    rec["ip_dtype_int"] = bool(np.issubdtype(ipa.dtype, np.integer))
-    sc_int = geo.grid_scaled_2d_from(grid_pixels_2d=ip)
-    rec["ip_scaled_int"] = al.ticks(_slim(sc_int, 2), "ip_scaled_int")
-    rec["ip_back"] = al.ints(_slim(geo.grid_pixels_2d_from(grid_scaled_2d=sc_int), 2), "ip_back")
-    gfl = aa.Grid2D.no_mask(values=np.asarray(ipa, dtype=float).reshape(-1, 2), shape_native=(1, nc), pixel_scales=1.0)
-    rec["ip_scaled_float"] = al.ticks(_slim(geo.grid_scaled_2d_from(grid_pixels_2d=gfl), 2), "ip_scaled_float")
-    gin = aa.Grid2D(values=np.asarray(cells, dtype=np.int64).reshape(-1, 2), mask=gc.mask)
-    rec["ip_scaled_newint"] = al.ticks(_slim(geo.grid_scaled_2d_from(grid_pixels_2d=gin), 2), "ip_scaled_newint")
-
-    # grids of pixel centres
     m = rng.random((h, w)) < rng.choice([0.3, 0.6])  # True = masked
     if rng.random() < 0.25:
         m[:, :] = False
     if m.all():
         m[int(rng.integers(0, h)), int(rng.integers(0, w))] = False
-    mask = aa.Mask2D(mask=m, pixel_scales=ps, origin=org)
-    rec["u"] = [int(k) for k in np.flatnonzero(~m.ravel())]
-    # every grid is requested twice and the first result (the caller's own object) is edited in place before the second
-    # request: the judged grid must still be the closed-form one (no result may be handed out from a shared buffer)
+    k4 = min(max(n, 4), 24)
+    p4 = np.stack([rng.integers(1, 4 * h - 2, size=k4), rng.integers(1, 4 * w - 2, size=k4)], axis=1)
+    R.rec.update({"qs": [[int(a), int(b)] for a, b in q], "cells": cells,
+                  "u": [int(k) for k in np.flatnonzero(~m.ravel())], "p4": p4.astype(int).tolist()})
+
+    full = aa.Mask2D.all_false(shape_native=(h, w), pixel_scales=ps, origin=org)
+    geo = full.geometry
+
+    R.do("geometry.extent", lambda: {"extent": al.ticks(list(geo.extent), "extent", 1)}, {"extent": []})
+
+    def index_calls():
+        out = {"px": [], "cen": [], "idx": []}
+        if n:
+            out["px"] = al.ints([list(geo.pixel_coordinates_2d_from(scaled_coordinates_2d=(float(y), float(x)))) for y, x in qj], "px", 2)
+            gq = aa.Grid2D.no_mask(values=qj.copy(), shape_native=(1, n), pixel_scales=1.0)
+            out["cen"] = al.ints(geo.grid_pixel_centres_2d_from(grid_scaled_2d=gq), "cen", 2)
+            out["idx"] = al.ints(geo.grid_pixel_indexes_2d_from(grid_scaled_2d=gq), "idx", 1)
+        return out
+
+    R.do("pixel_coordinates_2d_from / grid_pixel_centres_2d_from / grid_pixel_indexes_2d_from", index_calls,
+         {"px": [], "cen": [], "idx": []})
+
+    def continuous_calls():
+        if not n:
+            return {"cont_back": []}
+        ge = aa.Grid2D.no_mask(values=qexact.copy(), shape_native=(1, n), pixel_scales=1.0)
+        pix = geo.grid_pixels_2d_from(grid_scaled_2d=ge)
+        return {"cont_back": al.ticks(geo.grid_scaled_2d_from(grid_pixels_2d=pix), "cont_back", 2)}
+
+    R.do("grid_pixels_2d_from -> grid_scaled_2d_from", continuous_calls, {"cont_back": []})
+
+    # pixel centres and back (the pixel index as a tuple, as returned by pixel_coordinates_2d_from, as a Python list and
+    # as a numpy integer array)
+    def centre_calls():
+        ctr_f = [geo.scaled_coordinates_2d_from(pixel_coordinates_2d=(a, b)) for a, b in cells]
+        out = {"ctr": al.ticks([list(c) for c in ctr_f], "ctr", 2)}
+        cidx = [geo.pixel_coordinates_2d_from(scaled_coordinates_2d=c) for c in ctr_f]
+        out["cidx"] = al.ints([list(c) for c in cidx], "cidx", 2)
+        out["cback"] = al.ticks([list(geo.scaled_coordinates_2d_from(pixel_coordinates_2d=c)) for c in cidx], "cback", 2)
+        out["ctr_list"] = al.ticks([list(geo.scaled_coordinates_2d_from(pixel_coordinates_2d=[a, b])) for a, b in cells], "ctr_list", 2)
+        out["ctr_npint"] = al.ticks([list(geo.scaled_coordinates_2d_from(pixel_coordinates_2d=np.array([a, b], dtype=np.int64))) for a, b in cells], "ctr_npint", 2)
+        return out
+
+    R.do("scaled_coordinates_2d_from / pixel_coordinates_2d_from", centre_calls,
+         {"ctr": [], "cidx": [], "cback": [], "ctr_list": [], "ctr_npint": []})
+
+    # INTEGER pixel coordinates fed back through the continuous conversion: the exact centres of `cells` (gamma's own
+    # values, not the implementation's) go through grid_pixel_centres_2d_from; what it returns (integer dtype, as
+    # returned) goes through grid_scaled_2d_from and back through grid_pixels_2d_from.  The same whole numbers as floats
+    # and as a freshly built integer grid must give the same scaled coordinates (a conversion of pixel coordinates
+    # cannot depend on their dtype).
+    def integer_pixel_calls():
+        cy = np.array([(oy + (h - 1 - 2 * a) * (sy // 2)) * tau for a, b in cells], dtype=float)
+        cx = np.array([(ox + (2 * b - w + 1) * (sx // 2)) * tau for a, b in cells], dtype=float)
+        gc = aa.Grid2D.no_mask(values=np.stack([cy, cx], axis=1), shape_native=(1, nc), pixel_scales=1.0)
+        ip = geo.grid_pixel_centres_2d_from(grid_scaled_2d=gc)
+        ipa = np.array(ip)
+        out = {"ip": al.ints(ipa, "ip", 2), "ip_dtype_int": bool(np.issubdtype(ipa.dtype, np.integer))}
+        sc_int = geo.grid_scaled_2d_from(grid_pixels_2d=ip)
+        out["ip_scaled_int"] = al.ticks(sc_int, "ip_scaled_int", 2)
+        out["ip_back"] = al.ints(geo.grid_pixels_2d_from(grid_scaled_2d=sc_int), "ip_back", 2)
+        gfl = aa.Grid2D.no_mask(values=np.asarray(cells, dtype=float).reshape(-1, 2), shape_native=(1, nc), pixel_scales=1.0)
+        out["ip_scaled_float"] = al.ticks(geo.grid_scaled_2d_from(grid_pixels_2d=gfl), "ip_scaled_float", 2)
+        gin = aa.Grid2D(values=np.asarray(cells, dtype=np.int64).reshape(-1, 2), mask=gc.mask)
+        out["ip_scaled_newint"] = al.ticks(geo.grid_scaled_2d_from(grid_pixels_2d=gin), "ip_scaled_newint", 2)
+        return out
+
+    R.do("grid_pixel_centres_2d_from -> grid_scaled_2d_from -> grid_pixels_2d_from (integer pixels)", integer_pixel_calls,
+         {"ip": [], "ip_dtype_int": False, "ip_scaled_int": [], "ip_back": [], "ip_scaled_float": [], "ip_scaled_newint": []})
+
+    # grids of pixel centres.  Every grid is requested twice and the first result (the caller's own object) is edited in
+    # place before the second request: the judged grid must still be the closed-form one (no result may be handed out
+    # from a shared buffer)
     def _twice(make):
         first = make()
         try:
@@ -207,39 +272,40 @@ def rec_g2(g, qs, tau, seed, jitter, cells=None):
             pass
         return make()
 
-    rec["grid_mask"] = al.ticks(_slim(_twice(lambda: aa.Grid2D.from_mask(mask=mask)).slim, 2), "grid_mask")
-    rec["grid_uniform"] = al.ticks(_slim(_twice(lambda: aa.Grid2D.uniform(shape_native=(h, w), pixel_scales=ps, origin=org)).slim, 2), "grid_uniform")
-    rec["grid_all_false"] = al.ticks(_slim(_twice(lambda: mask.derive_grid.all_false).slim, 2), "grid_all_false")
+    mask = aa.Mask2D(mask=m, pixel_scales=ps, origin=org)
+    R.do("Grid2D.from_mask", lambda: {"grid_mask": al.ticks(_twice(lambda: aa.Grid2D.from_mask(mask=mask)).slim, "grid_mask", 2)},
+         {"grid_mask": []})
+    R.do("Grid2D.uniform", lambda: {"grid_uniform": al.ticks(
+        _twice(lambda: aa.Grid2D.uniform(shape_native=(h, w), pixel_scales=ps, origin=org)).slim, "grid_uniform", 2)},
+         {"grid_uniform": []})
+    R.do("derive_grid.all_false", lambda: {"grid_all_false": al.ticks(_twice(lambda: mask.derive_grid.all_false).slim, "grid_all_false", 2)},
+         {"grid_all_false": []})
 
     # continuous pixel coordinates -> scaled -> continuous pixel coordinates: quarters of a pixel in [0.25, H-0.75] x
     # [0.25, W-0.75], which is inside the frame whether pixel centres sit at half-integers or at integers
-    k = min(max(n, 4), 24)
-    p4 = np.stack([rng.integers(1, 4 * h - 2, size=k), rng.integers(1, 4 * w - 2, size=k)], axis=1)
-    gp = aa.Grid2D.no_mask(values=p4 / 4.0, shape_native=(1, k), pixel_scales=1.0)
-    sc = geo.grid_scaled_2d_from(grid_pixels_2d=gp)
-    rec["p4"] = p4.astype(int).tolist()
-    rec["p4_back"] = al.ints(_slim(geo.grid_pixels_2d_from(grid_scaled_2d=sc), 2), "p4_back", scale=4.0)
-    rec["off"] = int(al.off)
-    rec["offw"] = al.where
-    return rec
+    def p4_calls():
+        gp = aa.Grid2D.no_mask(values=p4 / 4.0, shape_native=(1, k4), pixel_scales=1.0)
+        sc = geo.grid_scaled_2d_from(grid_pixels_2d=gp)
+        return {"p4_back": al.ints(geo.grid_pixels_2d_from(grid_scaled_2d=sc), "p4_back", 2, scale=4.0)}
+
+    R.do("grid_scaled_2d_from -> grid_pixels_2d_from", p4_calls, {"p4_back": []})
+    return R.done()
 
 
 def rec_g1(w, s, o, tau, seed):
     import autoarray as aa
 
     rng = np.random.default_rng([seed, w, s, o + 1000])
-    al = _Alpha(tau)
     m = rng.random(w) < 0.4
     if rng.random() < 0.3 or m.all():
         m[:] = False
+    R = _Rec({"p": "C02", "api": "g1", "w": int(w), "s": int(s), "o": int(o), "tau": repr(float(tau)), "seed": int(seed),
+              "u": [int(k) for k in np.flatnonzero(~m)]}, tau)
+    al = R.al
     mask = aa.Mask1D(mask=m, pixel_scales=(s * tau,), origin=(o * tau,))
-    rec = {"p": "C02", "api": "g1", "w": int(w), "s": int(s), "o": int(o), "tau": repr(float(tau)), "seed": int(seed),
-           "u": [int(k) for k in np.flatnonzero(~m)]}
-    rec["extent"] = al.ticks(list(mask.geometry.extent), "extent")
-    rec["grid"] = al.ticks(_slim(aa.Grid1D.from_mask(mask=mask).slim, 1), "grid")
-    rec["off"] = int(al.off)
-    rec["offw"] = al.where
-    return rec
+    R.do("Mask1D.geometry.extent", lambda: {"extent": al.ticks(list(mask.geometry.extent), "extent", 1)}, {"extent": []})
+    R.do("Grid1D.from_mask", lambda: {"grid": al.ticks(aa.Grid1D.from_mask(mask=mask).slim, "grid", 1)}, {"grid": []})
+    return R.done()
 
 
 def _ell(e):
@@ -273,36 +339,61 @@ def rec_shape(g, par, tau, variant=0):
         return math.degrees(math.atan2(e["s"], e["c"])) + 180.0 * [0, 1, -1, 2][k % 4]
 
     kind, r = par["kind"], par["r"]
-    if kind == "circular":
-        mk = aa.Mask2D.circular(radius=rad(r[0]), **kw)
-    elif kind == "annular":
-        mk = aa.Mask2D.circular_annular(inner_radius=rad(r[0]), outer_radius=rad(r[1]), **kw)
-    elif kind == "anti_annular":
-        mk = aa.Mask2D.circular_anti_annular(inner_radius=rad(r[0]), outer_radius=rad(r[1]), outer_radius_2=rad(r[2]), **kw)
-    elif kind == "elliptical":
-        e = par["e1"]
-        mk = aa.Mask2D.elliptical(major_axis_radius=rad(r[0]), axis_ratio=e["qn"] / e["qd"], angle=ang(e, variant), **kw)
-    elif kind == "elliptical_annular":
+    if kind not in ALL_KINDS:
+        raise core.MachineryError(f"unknown constructor kind {kind}")
+
+    def call():
+        if kind == "circular":
+            return aa.Mask2D.circular(radius=rad(r[0]), **kw)
+        if kind == "annular":
+            return aa.Mask2D.circular_annular(inner_radius=rad(r[0]), outer_radius=rad(r[1]), **kw)
+        if kind == "anti_annular":
+            return aa.Mask2D.circular_anti_annular(inner_radius=rad(r[0]), outer_radius=rad(r[1]), outer_radius_2=rad(r[2]), **kw)
+        if kind == "elliptical":
+            e = par["e1"]
+            return aa.Mask2D.elliptical(major_axis_radius=rad(r[0]), axis_ratio=e["qn"] / e["qd"], angle=ang(e, variant), **kw)
         e1, e2 = par["e1"], par["e2"]
-        mk = aa.Mask2D.elliptical_annular(
+        return aa.Mask2D.elliptical_annular(
             inner_major_axis_radius=rad(r[0]), inner_axis_ratio=e1["qn"] / e1["qd"], inner_phi=ang(e1, variant),
             outer_major_axis_radius=rad(r[1]), outer_axis_ratio=e2["qn"] / e2["qd"], outer_phi=ang(e2, variant + 1), **kw)
-    else:
-        raise core.MachineryError(f"unknown constructor kind {kind}")
-    a = np.asarray(mk)
-    out = [int(k) for k in np.flatnonzero(~a.astype(bool).ravel())] if a.shape == (h, w) else [-2]
-    return {"p": "C02", "api": "shape", "g": dict(g), "par": par, "tau": repr(float(tau)), "variant": int(variant), "out": out}
+
+    rec = {"p": "C02", "api": "shape", "g": dict(g), "par": par, "tau": repr(float(tau)), "variant": int(variant), "raised": []}
+    try:
+        a = np.asarray(call())
+        # -2: the returned mask does not have the requested shape / is not boolean-like
+        rec["out"] = [int(k) for k in np.flatnonzero(~a.astype(bool).ravel())] if a.shape == (h, w) else [-2]
+    except Exception as e:  # noqa: BLE001 -- an exception of a constructor on a well-formed call is a verdict
+        rec["raised"].append(f"Mask2D.{kind}: {_msg(e)}")
+        rec["out"] = [-3]
+    return rec
+
+
+def _raised_in_repo(e):
+    """the innermost frame of the exception lies in the tree under test"""
+    tb = e.__traceback__
+    while tb is not None and tb.tb_next is not None:
+        tb = tb.tb_next
+    f = os.path.abspath(tb.tb_frame.f_code.co_filename) if tb is not None else ""
+    return f.startswith(os.path.abspath(os.environ.get("VERIF_REPO", "/repo")) + os.sep)
 
 
 def run_task(t):
     kind = t[0]
-    if kind == "g2":
-        return rec_g2(*t[1:])
-    if kind == "g1":
-        return rec_g1(*t[1:])
-    if kind == "shape":
-        return rec_shape(*t[1:])
-    raise core.MachineryError(f"unknown task {kind}")
+    fn = {"g2": rec_g2, "g1": rec_g1, "shape": rec_shape}.get(kind)
+    if fn is None:
+        raise core.MachineryError(f"unknown task {kind}")
+    try:
+        return fn(*t[1:])
+    except core.MachineryError:
+        raise
+    except Exception as e:  # noqa: BLE001
+        # an exception that escapes from the tree under test while the instance is being built from public
+        # constructors (Mask2D, Mask1D, Grid2D.no_mask) on well-formed inputs is a verdict too; anything raised by
+        # the harness itself stays a machinery failure
+        if not _raised_in_repo(e):
+            raise
+        return {"p": "C02", "api": "crash", "call": kind, "raised": [f"building the {kind} instance: {_msg(e)}"],
+                "task": json.dumps(t)}
 
 
 def _run_tasks(ts):
@@ -310,6 +401,8 @@ def _run_tasks(ts):
 
 
 def task_of_record(rec):
+    if rec["api"] == "crash":
+        return tuple(json.loads(rec["task"]))
     tau = float(rec["tau"])
     if rec["api"] == "g2":
         return ("g2", rec["g"], rec["qs"], tau, rec["seed"], rec["jitter"], rec["cells"])
@@ -391,6 +484,8 @@ def random_tasks(rng, n_geo, n_shape, seed):
 # validation through Trace_Geometry
 # ---------------------------------------------------------------------------------------------
 def _describe(rec):
+    if rec["api"] == "crash":
+        return f"building a {rec['call']} instance {rec['task'][:200]}"
     if rec["api"] == "g2":
         g = rec["g"]
         return f"geometry of {g['h']}x{g['w']} scales ({g['sy']},{g['sx']})u origin ({g['oy']},{g['ox']})u tau={rec['tau']}"
@@ -421,6 +516,8 @@ def validate(ctx, records, tag, chunk=4000):
     for rj in rejects:
         rec = records[rj["id"]]
         extra = f" off-lattice in {rec.get('offw')}" if rec.get("off") else ""
+        if rec.get("raised"):
+            extra += f" raised: {rec['raised']}"
         ctx.violation(rj["sig"], f"{_describe(rec)}: failed {rj['clauses']}{extra}",
                       {"record": rec, "failed_clauses": rj["clauses"], "spec_wanted": rj.get("want")},
                       cls=",".join(rj["clauses"]))
